@@ -52,6 +52,10 @@ class RayGenerator:
             z1 = np.full_like(Px, EPL)
 
         mag = np.sqrt((x1 - x0)**2 + (y1 - y0)**2 + (z1 - z0)**2)
+        # rays travel towards +z along the line through the starting point
+        # and the pupil point, also when the (virtual) entrance pupil lies
+        # behind the starting point
+        mag = np.where(z1 < z0, -mag, mag)
         L = (x1 - x0) / mag
         M = (y1 - y0) / mag
         N = (z1 - z0) / mag
